@@ -9,6 +9,7 @@ from gv.astutil import AnalysisError
 from gv.astutil import compare_parts
 from gv.astutil import const_value
 from gv.astutil import dotted
+from gv.astutil import kwarg
 from gv.astutil import last_attr
 from gv.astutil import names_in
 from gv.astutil import norm_stmt
@@ -389,8 +390,41 @@ def check_doe_run(ctx: Ctx) -> None:
     ctx.ob("3.7-preseed", con, ok, "the empty seed entries of failed samples must be removed after the parallel run", node=(rem or [pex[0]])[0], stmt="remove_empty_entries after parallel.execute")
 
 
+def check_nan_policy(ctx: Ctx) -> None:
+    """3.8: the problem's NaN policy reaches every NaN check of the evaluated values.
+
+    A DOE (and any driver run with ``stop_if_nan=False``) must go on after a NaN; the checks of the four memoising
+    methods raise FunctionIsNan unless they are handed the policy, and the default of the parameter is "stop".
+    """
+    cls = ctx.index.cls(PF, "ProblemFunction")
+    n = 0
+    for mname, m in sorted(cls.methods.items()):
+        for c in walk_body(m):
+            if not (isinstance(c, ast.Call) and last_attr(c) == "check_function_output_includes_nan"):
+                continue
+            params_ = {a_.arg for a_ in m.args.args}
+            if c.args and isinstance(c.args[0], ast.Name) and c.args[0].id in params_:
+                continue  # the check of the design point itself (DesvarIsNan): not subject to the policy
+            con = cname(PF, "ProblemFunction", mname)
+            pol = kwarg(c, "stop_if_nan")
+            if pol is None and len(c.args) > 1:
+                pol = c.args[1]
+            ok = pol is not None and dotted(pol) == "self.stop_if_nan"
+            n += 1
+            ctx.ob("3.8-nan-policy", con, ok, "the NaN check of an evaluated value is not given self.stop_if_nan: with the default (stop) a NaN ends a DOE, or an optimization asked to go on, at that point", node=c, stmt=f"NaN check of `{norm_stmt(c.args[0], 40) if c.args else '?'}` follows self.stop_if_nan")
+    ctx.floor("3.8-nan-policy", 4)
+    # the policy is an attribute the problem can switch after construction, and the DOE library switches it off
+    init = ctx.index.method(PF, "ProblemFunction", "__init__")
+    sets = [s_ for s_ in stmts_of(init) if isinstance(s_, ast.Assign) and dotted(s_.targets[0]) == "self.stop_if_nan"]
+    ctx.ob("3.8-nan-policy", cname(PF, "ProblemFunction", "__init__"), len(sets) == 1 and dotted(sets[0].value) == "stop_if_nan", "ProblemFunction must keep the NaN policy it is constructed with", node=(sets or [init])[0], stmt="self.stop_if_nan = stop_if_nan")
+    pre = ctx.index.method(DOE, "BaseDOELibrary", "_pre_run")
+    off = [s_ for s_ in stmts_of(pre) if isinstance(s_, ast.Assign) and (dotted(s_.targets[0]) or "").endswith(".stop_if_nan")]
+    ctx.ob("3.8-nan-policy", cname(DOE, "BaseDOELibrary", "_pre_run"), len(off) == 1 and const_value(off[0].value, True) is False, "a DOE must switch the NaN policy of its problem off: every generated sample is evaluated and recorded", node=(off or [pre])[0], stmt="problem.stop_if_nan = False")
+
+
 def run(ctx: Ctx) -> None:
     check_budget_guard(ctx)
+    check_nan_policy(ctx)
     check_counter(ctx)
     store_protocol(ctx, "3.3", {"emptiness"})
     check_execute(ctx)
